@@ -6,6 +6,8 @@ from .lifecycle import *
 from .c04 import lock_holders, aggregate_sites
 from . import scans
 
+PER_TARGET = True      # every rule below looks at one target configuration at a time (check.py may fork one worker per target)
+USES_CONTROLS = True
 DECIDED = ("MIR makes unwinding explicit, so each clause is a path property: R5.1 lock poison is swallowed (C04 R4.2) and no unwrap/expect is "
            "applied to a LockResult, and the lock is never taken through try_lock; R5.2 in every destructor of the crate a diverging path is either on the not-panicking edge of "
            "std::thread::panicking() or one of the tabulated environment faults (protection change refused, cache flush refused, saved-bytes "
@@ -53,6 +55,7 @@ def run(ck, models, tier):
             ok = bool(vs) and all(v.status == "returned" for v in vs)
             ck.ob("R5.1", "%s/poison-swallowed" % short(wfn), tm.target, ok,
                   "%s: %d path(s), all return a guard: %s" % (short(wfn), len(vs or []), ok))
+        lock_wrapper_cannot_panic(ck, tm, "R5.1")
         # ---------------- R5.2 destructors
         drops = tm.drop_impls()
         ck.floor("R5.2", "drop-impls", len(drops), 2, tm.target)
